@@ -41,6 +41,7 @@ type runCase struct {
 	KeyFirst  bool   `json:"key_first"`           // ... followed by a properly signed xauth (AES context + authorised)
 	Bystander bool   `json:"bystander,omitempty"` // another peer is connected and has completed its handshake
 	Peers     string `json:"peers,omitempty"`     // peers database at the start (see resetWith)
+	Queues    string `json:"queues,omitempty"`    // nettxs_full | netblocks_full | getmp_ticket_taken (see queues_test.go)
 	Frames    []msg  `json:"frames"`
 }
 
@@ -162,6 +163,8 @@ func runRun(rc runCase, cp *capture) (err error) {
 	}()
 	e := getEnv()
 	e.resetWith(rc.Syncing, rc.Peers)
+	stopQueues := applyQueues(rc.Queues)
+	defer stopQueues()
 	var off int64
 	if cp != nil {
 		off = cp.mark()
@@ -331,7 +334,16 @@ func genRunCase(t *rapid.T) runCase {
 	rc.KeyFirst = rc.Handshake && g.chance(35)
 	rc.Bystander = g.chance(30)
 	seq := g.sequence(12)
-	if g.chance(8) {
+	if g.chance(10) {
+		rc.Queues = pick(g, []string{"nettxs_full", "nettxs_full", "netblocks_full", "getmp_ticket_taken"})
+		rc.Handshake = true
+		if rc.Queues == "nettxs_full" {
+			rc.Syncing = false
+			for i, n := 0, g.n(1, 3, "ntxmsg"); i < n; i++ {
+				seq = append([]msg{{Cmd: "tx", Pl: hexs(g.tx().Serialize(true)), Kind: "wf"}}, seq...)
+			}
+		}
+	} else if g.chance(8) {
 		rc.Peers = pick(g, []string{"full", "below"})
 		rc.Handshake = true
 		seq = append([]msg{g.addrFresh()}, seq...)
@@ -377,6 +389,9 @@ func TestRunLoop(t *testing.T) {
 		}
 		if rc.Peers != "" {
 			r.Class("peers_db/" + rc.Peers)
+		}
+		if rc.Queues != "" {
+			r.Class("queues/" + rc.Queues)
 		}
 		if rc.Bystander {
 			r.Class("bystander_connection")
